@@ -37,6 +37,7 @@ extern int epoll_wait(int, struct epoll_event *, int, int);
 extern ssize_t read(int, void *, size_t);
 extern ssize_t write(int, const void *, size_t);
 extern int clock_gettime(clockid_t, struct timespec *);
+extern int timerfd_settime(int, int, const struct itimerspec *, struct itimerspec *);
 JanetSignal janet_continue_signal(JanetFiber *fiber, Janet in, Janet *out, JanetSignal sig);
 
 static int64_t vnow = 1000;       /* virtual monotonic clock, ms */
@@ -115,7 +116,7 @@ static void log_bytes(const char *tag, int fd, size_t limit, ssize_t r, const un
 }
 ssize_t verif_read(int fd, void *buf, size_t n) {
     ssize_t r;
-    if (fd == janet_vm.selfpipe[0]) return read(fd, buf, n);
+    if (fd == janet_vm.selfpipe[0] || pthread_self() != main_thread) return read(fd, buf, n);
     do { r = read(fd, buf, n); } while (r == -1 && errno == EINTR);
     int e = errno;
     log_bytes("rd", fd, n, r, buf, e);
@@ -145,13 +146,16 @@ static void log_poll(struct epoll_event *events, int n) {
 }
 
 /* ---- virtual time ------------------------------------------------------------------------------ */
+/* worker threads started by ev/thread run their own janet VM through this same translation unit: they get the real clock,
+ * the real epoll and no logging — the virtual clock and the log belong to the scenario's main thread */
+#define IN_WORKER() (pthread_self() != main_thread)
 int verif_clock_gettime(clockid_t id, struct timespec *ts) {
-    (void) id;
+    if (IN_WORKER()) return clock_gettime(id, ts);
     ts->tv_sec = vnow / 1000; ts->tv_nsec = (vnow % 1000) * 1000000;
     return 0;
 }
 int verif_timerfd_settime(int fd, int flags, const struct itimerspec *its, struct itimerspec *old) {
-    (void) fd; (void) flags; (void) old;
+    if (IN_WORKER()) return timerfd_settime(fd, flags, its, old);
     if (its->it_value.tv_sec == 0 && its->it_value.tv_nsec == 0) { timer_armed = 0; return 0; }
     timer_armed = 1;
     timer_deadline = (int64_t) its->it_value.tv_sec * 1000 + its->it_value.tv_nsec / 1000000;
@@ -171,8 +175,8 @@ static void finish(const char *status) {
     _exit(0);
 }
 int verif_epoll_wait(int epfd, struct epoll_event *events, int max, int timeout) {
-    (void) timeout;
     int n;
+    if (IN_WORKER()) return epoll_wait(epfd, events, max, timeout);
     do { n = epoll_wait(epfd, events, max, 0); } while (n == -1 && errno == EINTR);
     if (n != 0) { if (n > 0) log_poll(events, n); return n; }
     if (timer_armed) {
@@ -199,6 +203,7 @@ int verif_epoll_wait(int epfd, struct epoll_event *events, int max, int timeout)
 
 /* ---- resume log -------------------------------------------------------------------------------- */
 JanetSignal verif_continue_signal(JanetFiber *fiber, Janet in, Janet *out, JanetSignal sig) {
+    if (IN_WORKER()) return janet_continue_signal(fiber, in, out, sig);
     fprintf(lg, "R %lld %s sid=%u in=%s val=%s\n", (long long)(vnow - T0), fname(fiber), fiber->sched_id,
             janet_signal_names[sig], reprs(in));
     JanetSignal r = janet_continue_signal(fiber, in, out, sig);
